@@ -188,3 +188,16 @@ Theorem gen_C01_parseUserHost : forall uh,
   go_client_parseUserHost uh = (r <- parse_user_host uh ;; Ok (user_host_results r)).
 Proof. exact go_parseUserHost_eq. Qed.
 Print Assumptions gen_C01_parseUserHost.
+
+(* generated-code tie, ParseLine: the Gallina TRANSLATION of the whole body (local Line struct
+   as one variable per field, Tags as an optional association list, tagsReplacer as its list
+   of pairs) returns exactly the fields of the model's parse, or nil/panics exactly when the
+   model does (Proofs/GenEqParse.v) *)
+From Verif Require Import GenEqParse.
+Theorem gen_C01_ParseLine : forall s,
+  go_client_ParseLine s = (r <- parse s ;; Ok (option_map line_fields r)).
+Proof. exact go_ParseLine_eq. Qed.
+Theorem gen_C01_tagsReplacer : go_client_tagsReplacer = tags_pairs.
+Proof. reflexivity. Qed.
+Print Assumptions gen_C01_ParseLine.
+Print Assumptions gen_C01_tagsReplacer.
